@@ -155,6 +155,9 @@ def _decode_channel_into(chunk, channel, buf, block_size):
     gy = ceil_div(chunk.shape[2], block_size[1])
     gz = ceil_div(chunk.shape[1], block_size[2])
     block_num_elem = block_size[0] * block_size[1] * block_size[2]
+    if len(buf) < 8 * gx * gy * gz:
+        raise InvalidFormatError("compressed_segmentation channel data is too "
+                                 "short for its block headers")
     for z, y, x in np.ndindex((gz, gy, gx)):
         # Read the block header
         res = struct.unpack_from("<II", buf, 8 * (x + gx * (y + gy * z)))
